@@ -98,14 +98,14 @@ func init() {
 	reg(&propCfg{
 		ID: "C19", Level: "fault_enumeration",
 		Rule: "malformed external data is fed to the real readers inside the timer-free child (a reader that never closes its stream is reported by the runtime's deadlock detector; a panic kills the child and is attributed to the document logged before the call): CSV reader for 5 row shapes (1-8 fields: strings, ints, uint8/16, floats, bools, dates in two formats, header tags) with and without header, through ReadFromReader and ReadFromFile - EVERY truncation offset of a small valid document, grammar-aware corruptions (deleted/added fields, type errors per column incl. out-of-range integers, unbalanced and bare quotes, bare CR, CRLF, empty lines, BOM, separator-only rows, trailing garbage, missing final newline) stacked 1-3 deep, seeded byte mutations, permuted/partial headers; JSON stream reader: wrong top-level values, every truncation offset, the same corruptions; Tiingo repository over a fake http.RoundTripper installed as http.DefaultTransport (no network): 13 status codes x valid / empty / truncated / corrupted / HTML / object bodies. Oracles: no crash; the stream closes; rows delivered == records of the well-formed prefix computed by an independent strconv/time.Parse/json.Decoder reference; goroutine census empty afterwards; every response body closed once the stream has ended; status != 200, missing files and directories surface as errors. distinct_nontrivial counts distinct documents with a non-empty well-formed prefix.",
-		Shards: [2]int{16, 16}, MinEvals: [2]int{40, 300},
+		Shards: [2]int{16, 16}, MinEvals: [2]int{40, 300}, Watchdog: [2]int{180, 900},
 		RequirePositive: "cmp:", RequireCount: 7,
 	})
 	reg(&propCfg{
 		ID: "C07", Level: "exploration",
 		Rule: "the real And/Or/Majority/Split/Inverse/NoLoss/StopLoss combinators (and nestings NoLoss(StopLoss), StopLoss(NoLoss), Inverse(NoLoss), NoLoss(Inverse), NoLoss(And)) wrap scripted stub strategies that replay chosen action words; the output is compared with slice models of the specified combination (votes over position-wise DENORMALISED words, split rule, swap, explicit no-loss / stop-loss state machines over (action, close)) and, independently, with two trace safety monitors (no Sell at a close not above the preceding Buy's close; a Sell at the first close <= buy*(1-pct)). Exhaustive: all tuples of k words of length n for k=1 (n<=7), k=2 (n<=4), k=3 (n<=2 quick / n<=3 thorough) x 4 closing series x 3 percentages where relevant; plus random words up to length 200 with up to 6 sub-strategies. MACD-RSI is compared with the agreement rule over its own two real sub-strategies. distinct_nontrivial counts distinct (shape, word tuple) cases with n >= 2.",
 		Exhaustive: "all k-tuples of action words over {Sell,Hold,Buy}: k=1 n<=7, k=2 n<=4, k=3 n<=2 (quick) / n<=3 (thorough), for every combinator shape",
-		Shards: [2]int{16, 16}, MinEvals: [2]int{100, 300},
+		Shards: [2]int{16, 16}, MinEvals: [2]int{100, 150},
 	})
 	reg(&propCfg{
 		ID: "C08", Level: "exploration",
